@@ -18,7 +18,7 @@ From Coq Require Import List Arith Bool ZArith Lia PrimFloat.
 From OPF Require Import Base.Lists Base.TotalOrder Base.NumOps Model.Heap Model.Sup Model.Learn
   Model.LearnFull Model.LearnFullFloat.
 From OPF Require Import Proofs.ParamBase Proofs.ParamSup Proofs.Rescale Proofs.OrderEmbed Proofs.LiftSup
-  Proofs.WeakOrder Proofs.FloatOrder Proofs.LearnFull.
+  Proofs.WeakOrder Proofs.LiftSupWeak Proofs.FloatOrder Proofs.LearnFull.
 Import ListNotations.
 
 (* [fnn x]: x is not a NaN *)
@@ -117,6 +117,27 @@ Section SupFitFloat.
     apply fenc_ltb; now apply (Forall_fnn_in vals).
   Qed.
 End SupFitFloat.
+
+(* ---------- C01 on floats: the optimum-path forest, cost equalities up to == ---------- *)
+
+Lemma eqv_float_eqb a b :
+  is_nan a = false -> is_nan b = false -> (eqv PrimFloat.ltb a b <-> PrimFloat.eqb a b = true).
+Proof. intros Ha Hb. unfold eqv. symmetry. now apply eqb_iff_incomparable. Qed.
+
+Theorem sup_fit_float_opf (zero top : float) (labels : list nat) (w : nat -> nat -> float) :
+  let n := length labels in
+  let vals := zero :: top :: weight_vals n w in
+  let fp := find_prototypes PrimFloat.ltb top n w (nodes_init zero labels) in
+  let isproto q := nth q (n_status fp) false = true in
+  Forall fnn vals ->
+  PrimFloat.ltb zero top = true ->
+  (forall p q, p < n -> q < n -> p <> q ->
+     PrimFloat.ltb (w p q) zero = false /\ PrimFloat.ltb (w p q) top = true) ->
+  (exists s, s < n /\ isproto s) ->
+  let nd := sup_fit PrimFloat.ltb zero top labels w in
+  opf_spec_Ww PrimFloat.ltb n w zero nd isproto labels /\
+  n_status nd = n_status fp /\ n_label nd = labels.
+Proof. exact (sup_fit_weak_order fnn PrimFloat.ltb float_weak_order zero top labels w). Qed.
 
 (* ---------- floats versus canonical floats ---------- *)
 
